@@ -193,8 +193,12 @@ def estimators_run(eng, gridname, hist, with_g, with_m0):
             for k in range(len(tests)):
                 for l in range(len(tests)):
                     spec = spec + d[k] * st.B(tests[k], tests[l]) * d[l]
-            got = val._sq() if isinstance(val, models.SqrtTerm) else SR.lift(val) * SR.lift(val)
-            ok, _ = eng.prove_identity(got, spec, 'hh2:energy')
+            v = val
+            if isinstance(v, np.ndarray) and v.size == 1:
+                v = v.reshape(-1)[0]
+            lifted = None if isinstance(v, models.SqrtTerm) else SR.lift(v)
+            got = v._sq() if isinstance(v, models.SqrtTerm) else (lifted * lifted if lifted is not None else None)
+            ok = got is not None and eng.prove_identity(got, spec, 'hh2:energy')[0]
             if not ok:
                 problems.append('hh2-energy: estimate is not sqrt(d^T A d) with d = fine solution - piecewise constant '
                                 'extension')
